@@ -1,12 +1,308 @@
-//! C15 — not built yet.
-use crate::runner::{Outcome, Summary};
-use crate::Ctx;
-use serde_json::Value;
+//! C15 — gate modifiers, daggers and program unitaries compose correctly (module Unitary; shared code
+//! in c14.rs).
+//!
+//! replay (spec -> code), cases of spec/mc/MC_Unitary.tla:
+//!   kind "gate": a modifier stack grown by the builder machine with its expected sparse symbolic
+//!       matrix: evaluated for five parameter assignments and compared (1e-10) with `Gate::to_unitary`
+//!       of the gate written directly AND built through `Gate::dagger/controlled/forked` (the two
+//!       values must be equal), with `Program::to_unitary` of the one-gate program; unitarity.
+//!   kind "prog": {n, gates, mats, dagger}: `Program::to_unitary` against the ordered product of the
+//!       specification's per-gate matrices, `Program::dagger` against the specification's dagger
+//!       program (gate list) and its unitary against the adjoint, unitarity.
+//! drive (code -> spec): seeded random builder histories (deeper stacks, larger registers) and
+//!   programs; each builder call is one event carrying the real gate value and the real matrix
+//!   abstracted to symbols, `pdagger` carries the real dagger program; validated by TLC against
+//!   spec/trace/UnitaryTrace.tla.  The numeric program laws are checked between real runs.
 
-pub fn replay(_ctx: &Ctx, _case: &Value) -> Outcome {
-    panic!("C15: replay not implemented")
+use super::c14::{
+    abstract_matrix, adjoint, assignments, base_params, build_by_builder, build_direct, check_gate_case, eval_entries,
+    generic_thetas, judge, max_diff, real_gate_unitary, reference_unitary, rejudge_gate, thetas_of,
+    unitarity_defect, GateCase, Mat, GATES,
+};
+use crate::runner::{Outcome, Summary, Violation};
+use crate::util::{self, arr, u};
+use crate::Ctx;
+use quil_rs::instruction::{Gate, Instruction, Qubit};
+use quil_rs::quil::Quil;
+use quil_rs::Program;
+use rand::seq::SliceRandom;
+use rand::Rng;
+use serde_json::{json, Value};
+use std::str::FromStr;
+
+const TOL: f64 = 1e-10;
+
+fn program_of(gates: &[Gate]) -> Program {
+    let mut p = Program::new();
+    for g in gates {
+        p.add_instruction(Instruction::Gate(g.clone()));
+    }
+    p
 }
 
-pub fn drive(_ctx: &Ctx) -> Summary {
-    panic!("C15: drive not implemented")
+fn gates_of(p: &Program) -> Option<Vec<Gate>> {
+    p.to_instructions().into_iter().map(|i| if let Instruction::Gate(g) = i { Some(g) } else { None }).collect()
+}
+
+/// ordered product: the LAST gate is the leftmost factor
+fn product(mats: &[Mat], dim: usize) -> Mat {
+    let mut acc = Mat::eye(dim);
+    for m in mats {
+        acc = m.dot(&acc);
+    }
+    acc
+}
+
+fn check_prog_case(ctx: &Ctx, o: &mut Outcome, case: &Value) {
+    let n = u(case, "n");
+    let dim = 1usize << n;
+    let gcs: Vec<GateCase> = arr(case, "gates").iter().map(GateCase::from_json).collect();
+    let want_dagger: Vec<GateCase> = arr(case, "dagger").iter().map(GateCase::from_json).collect();
+    let np = gcs.iter().map(|g| g.np).max().unwrap_or(0);
+    let key = format!("prog|{n}|{}", gcs.iter().map(|g| g.text()).collect::<Vec<_>>().join(";"));
+    for thetas in assignments(ctx.seed, &key, np) {
+        let gates: Vec<Gate> = gcs.iter().map(|g| build_direct(g, &thetas)).collect();
+        let program = program_of(&gates);
+        let text = program.to_quil_or_debug();
+        let want_mats: Vec<Mat> = arr(case, "mats").iter().map(|e| eval_entries(e, dim, &thetas)).collect();
+        let ref_mats: Vec<Mat> = gcs.iter().map(|g| reference_unitary(g, n, &thetas)).collect();
+        let want = product(&want_mats, dim);
+        let reference = product(&ref_mats, dim);
+        let real = program.to_unitary(n).map_err(|e| format!("{e}"));
+        judge(o, "program unitary", &format!("Program::to_unitary of `{}`", text.replace('\n', "; ")), &real, &want, &reference, TOL);
+        // the law between real runs: product of the real per-gate unitaries, in order
+        if let Ok(u_real) = &real {
+            let per_gate: Result<Vec<Mat>, String> = gates.iter().map(|g| real_gate_unitary(g, n)).collect();
+            if let Ok(ms) = per_gate {
+                let (d, r, c) = max_diff(u_real, &product(&ms, dim));
+                if d > TOL {
+                    o.violate(
+                        Violation::new("program unitary", json!("product of the gates' unitaries in order"), json!(format!("differs by {d:.3e} at [{r}][{c}]")))
+                            .note(text.replace('\n', "; ")),
+                    );
+                }
+            }
+            let defect = unitarity_defect(u_real);
+            if defect > TOL {
+                o.violate(Violation::new("unitarity", json!("U U^dagger = Id"), json!(format!("defect {defect:.3e}"))).note(text.replace('\n', "; ")));
+            }
+        }
+        // Program::dagger: the gate list the specification predicts, and the adjoint unitary
+        match program.dagger() {
+            Err(e) => o.violate(Violation::new("program dagger", json!("a program"), json!(format!("error: {e}")))),
+            Ok(dp) => {
+                let got: Option<Vec<GateCase>> = gates_of(&dp).map(|gs| gs.iter().map(GateCase::from_gate).collect());
+                let want_values: Vec<Gate> = want_dagger.iter().zip(gcs.iter().rev()).map(|(d, g)| {
+                    // the dagger program's j-th gate carries the parameters of the (len+1-j)-th original gate
+                    let mut v = build_direct(g, &thetas);
+                    v.modifiers = d.mods.iter().map(|m| super::c14::modifier_of(m)).collect();
+                    v
+                }).collect();
+                let same_shape = got.as_ref() == Some(&want_dagger) && gates_of(&dp).as_ref() == Some(&want_values);
+                let du = dp.to_unitary(n).map_err(|e| format!("{e}"));
+                let mut adjoint_ok = false;
+                if let (Ok(du), Ok(u_real)) = (&du, &real) {
+                    adjoint_ok = max_diff(du, &adjoint(u_real)).0 <= TOL;
+                }
+                if !adjoint_ok {
+                    o.violate(
+                        Violation::new("program dagger", json!("to_unitary(dagger(p)) = adjoint of to_unitary(p)"), json!(du.as_ref().map(|_| "a different matrix".to_string()).unwrap_or_else(|e| e.clone())))
+                            .note(format!("`{}` -> `{}`", text.replace('\n', "; "), dp.to_quil_or_debug().replace('\n', "; "))),
+                    );
+                } else if !same_shape {
+                    // the statement only fixes the unitary of the dagger program
+                    o.diverge(format!("Program::dagger gives `{}`, the model expects {:?}", dp.to_quil_or_debug().replace('\n', "; "), want_dagger.iter().map(|g| g.text()).collect::<Vec<_>>()));
+                }
+                judge(o, "program dagger", "unitary of the dagger program", &du, &adjoint(&want), &adjoint(&reference), TOL);
+            }
+        }
+        // the printed program parses back to a program with the same unitary (outside the statement: divergence only)
+        match Program::from_str(&text) {
+            Ok(p2) => match (p2.to_unitary(n), &real) {
+                (Ok(m2), Ok(m)) if max_diff(&m2, m).0 <= TOL => {}
+                (other, _) => o.diverge(format!("re-parsed program `{}` has another unitary / fails: {:?}", text.replace('\n', "; "), other.err().map(|e| e.to_string()))),
+            },
+            Err(e) => o.diverge(format!("printed program does not parse: {e}")),
+        }
+        o.sub_evaluations += 1;
+    }
+}
+
+pub fn replay(ctx: &Ctx, case: &Value) -> Outcome {
+    if let Some(h) = case.get("history") {
+        return replay_history(ctx, h);
+    }
+    match case["kind"].as_str() {
+        Some("gate") => {
+            let gc = GateCase::from_json(&case["gate"]);
+            let mut o = Outcome::ok(!gc.mods.is_empty());
+            check_gate_case(ctx, &mut o, case, TOL, "unitary");
+            o
+        }
+        Some("prog") => {
+            let gates = arr(case, "gates");
+            let mut o = Outcome::ok(gates.len() >= 2 || gates.iter().any(|g| !arr(g, "mods").is_empty()));
+            check_prog_case(ctx, &mut o, case);
+            o
+        }
+        other => panic!("C15: unknown case kind {other:?}"),
+    }
+}
+
+/// A recorded history judged again on the real code with the harness reference (replay of a
+/// trace-validation rejection).
+fn replay_history(_ctx: &Ctx, h: &Value) -> Outcome {
+    let mut o = Outcome::ok(true);
+    let mut n = 0;
+    let mut thetas = vec![];
+    let mut prog: Vec<GateCase> = vec![];
+    let mut cur: Option<GateCase> = None;
+    for e in h.as_array().cloned().unwrap_or_default() {
+        match e["ev"].as_str() {
+            Some("reset") => {
+                n = u(&e, "n");
+                thetas = thetas_of(&e["thetas"]);
+                prog.clear();
+                cur = None;
+            }
+            Some("new") | Some("dagger") | Some("controlled") | Some("forked") => {
+                let gc = GateCase::from_json(&e["post"]);
+                rejudge_gate(&mut o, &gc, n, &thetas, TOL);
+                cur = Some(gc);
+            }
+            Some("append") => {
+                if let Some(g) = cur.take() {
+                    prog.push(g);
+                }
+            }
+            Some("pdagger") => {
+                let gates: Vec<Gate> = prog.iter().map(|g| build_direct(g, &thetas)).collect();
+                let p = program_of(&gates);
+                let dim = 1usize << n;
+                let reference = product(&prog.iter().map(|g| reference_unitary(g, n, &thetas)).collect::<Vec<_>>(), dim);
+                let real = p.to_unitary(n).map_err(|e| format!("{e}"));
+                judge(&mut o, "program unitary", "Program::to_unitary of the recorded program", &real, &reference, &reference, TOL);
+                let du = p.dagger().map_err(|e| format!("{e}")).and_then(|d| d.to_unitary(n).map_err(|e| format!("{e}")));
+                judge(&mut o, "program dagger", "unitary of the dagger of the recorded program", &du, &adjoint(&reference), &adjoint(&reference), TOL);
+            }
+            _ => {}
+        }
+    }
+    o
+}
+
+// ------------------------------------------------------------------------------------------- drive
+
+fn theta_strings(thetas: &[f64]) -> Vec<String> {
+    thetas.iter().map(|t| format!("{t:?}")).collect()
+}
+
+fn observe(gate: &Gate, n: u64, thetas: &[f64]) -> Vec<Value> {
+    match real_gate_unitary(gate, n) {
+        Ok(m) => abstract_matrix(&m, thetas),
+        Err(e) => vec![json!([0, 0, {"s": "?", "p": 0, "error": e}])],
+    }
+}
+
+pub fn drive(ctx: &Ctx) -> Summary {
+    let count = ctx.arg_u64("n", 40);
+    let max_n = ctx.arg_u64("maxn", 5);
+    let max_depth = ctx.arg_u64("depth", 3) as usize;
+    let max_prog = ctx.arg_u64("prog", 4) as usize;
+    let path = ctx.arg_str("out").expect("--out");
+    let mut out = std::io::BufWriter::new(std::fs::File::create(path).expect("create trace"));
+    let mut rng = util::rng(ctx.seed, 1500);
+    let mut sum = Summary::default();
+    for h in 0..count {
+        let n = rng.gen_range(3..=max_n.max(3));
+        // parameters theta_1 .. theta_16 shared by every gate of the history (depth <= 4 forks)
+        let thetas = generic_thetas(&mut rng, 16);
+        util::emit(&mut out, &json!({"ev": "reset", "n": n, "thetas": theta_strings(&thetas)}));
+        let mut o = Outcome::ok(true);
+        let mut events = 1;
+        let len = if h % 3 == 0 { 1 } else { rng.gen_range(2..=max_prog.max(2)) };
+        let mut gates: Vec<Gate> = vec![];
+        for _ in 0..len {
+            // a base gate that leaves room for modifiers
+            let (name, k, _) = loop {
+                let g = GATES.choose(&mut rng).unwrap();
+                if (g.1 as u64) <= n {
+                    break *g;
+                }
+            };
+            let depth = if len == 1 { rng.gen_range(1..=max_depth) } else { rng.gen_range(0..=2.min(max_depth)) };
+            let mut free: Vec<u64> = (0..n).collect();
+            free.shuffle(&mut rng);
+            let qs: Vec<u64> = free.drain(..k).collect();
+            let base = GateCase { name: name.into(), mods: vec![], qubits: qs.clone(), np: base_params(name) };
+            let mut gate = build_direct(&base, &thetas);
+            util::emit(&mut out, &json!({"ev": "new", "name": name, "qs": qs, "post": GateCase::from_gate(&gate).to_json(),
+                                         "entries": observe(&gate, n, &thetas)}));
+            events += 1;
+            for _ in 0..depth {
+                let choice = rng.gen_range(0..3);
+                if choice == 0 || free.is_empty() {
+                    gate = gate.dagger();
+                    util::emit(&mut out, &json!({"ev": "dagger", "post": GateCase::from_gate(&gate).to_json(),
+                                                 "entries": observe(&gate, n, &thetas)}));
+                } else if choice == 1 {
+                    let q = free.pop().unwrap();
+                    gate = gate.controlled(Qubit::Fixed(q));
+                    util::emit(&mut out, &json!({"ev": "controlled", "q": q, "post": GateCase::from_gate(&gate).to_json(),
+                                                 "entries": observe(&gate, n, &thetas)}));
+                } else {
+                    let q = free.pop().unwrap();
+                    let have = gate.parameters.len();
+                    let alt = thetas[have..2 * have].iter().map(|t| quil_rs::expression::Expression::Number(num_complex::Complex64::new(*t, 0.0))).collect();
+                    gate = gate.forked(Qubit::Fixed(q), alt).expect("Gate::forked");
+                    util::emit(&mut out, &json!({"ev": "forked", "q": q, "post": GateCase::from_gate(&gate).to_json(),
+                                                 "entries": observe(&gate, n, &thetas)}));
+                }
+                events += 1;
+            }
+            util::emit(&mut out, &json!({"ev": "append"}));
+            events += 1;
+            gates.push(gate);
+        }
+        // the program: its dagger as the real code builds it (validated by TLC), numeric laws between real runs
+        let program = program_of(&gates);
+        let text = program.to_quil_or_debug().replace('\n', "; ");
+        let dim = 1usize << n;
+        match program.dagger() {
+            Ok(dp) => {
+                let dgates: Vec<Value> = gates_of(&dp).unwrap_or_default().iter().map(|g| GateCase::from_gate(g).to_json()).collect();
+                util::emit(&mut out, &json!({"ev": "pdagger", "gates": dgates}));
+                events += 1;
+                let per_gate: Result<Vec<Mat>, String> = gates.iter().map(|g| real_gate_unitary(g, n)).collect();
+                match (program.to_unitary(n), dp.to_unitary(n), per_gate) {
+                    (Ok(pu), Ok(du), Ok(ms)) => {
+                        let d1 = max_diff(&pu, &product(&ms, dim)).0;
+                        let d2 = max_diff(&du, &adjoint(&pu)).0;
+                        let d3 = unitarity_defect(&pu);
+                        if d1 > TOL {
+                            o.violate(Violation::new("program unitary", json!("product of the gates' unitaries in order"), json!(format!("differs by {d1:.3e}"))).note(text.clone()));
+                        }
+                        if d2 > TOL {
+                            o.violate(Violation::new("program dagger", json!("adjoint of the program's unitary"), json!(format!("differs by {d2:.3e}"))).note(text.clone()));
+                        }
+                        if d3 > TOL {
+                            o.violate(Violation::new("unitarity", json!("U U^dagger = Id"), json!(format!("defect {d3:.3e}"))).note(text.clone()));
+                        }
+                    }
+                    (a, b, c) => o.violate(Violation::new("program unitary", json!("matrices"), json!(format!("{:?} {:?} {:?}", a.err().map(|e| e.to_string()), b.err().map(|e| e.to_string()), c.err()))).note(text.clone())),
+                }
+            }
+            Err(e) => o.violate(Violation::new("program dagger", json!("a program"), json!(format!("error: {e}"))).note(text.clone())),
+        }
+        // the builder route and the direct route give the same value
+        for g in &gates {
+            let gc = GateCase::from_gate(g);
+            if build_by_builder(&gc, &thetas) != *g || build_direct(&gc, &thetas) != *g {
+                o.diverge(format!("harness builders disagree on {}", gc.text()));
+            }
+        }
+        o.count_n("events", events);
+        sum.absorb(&json!({"n": n, "program": text}), &o, true);
+    }
+    sum
 }
